@@ -35,6 +35,28 @@ type class struct {
 	Ts   string `json:"ts"`
 	Sp   string `json:"sp"`
 	Mk   string `json:"mk"`
+	Sz   string `json:"sz"`
+}
+
+// rows carried by one request of the class
+func rowsOf(c class) int {
+	switch {
+	case c.Sz == "mid":
+		return 20
+	case c.Sz == "big":
+		return 65600
+	case c.Kind == "row":
+		return 1
+	}
+	return 2
+}
+
+func allRows(c class) []int {
+	out := make([]int, rowsOf(c))
+	for i := range out {
+		out[i] = i
+	}
+	return out
 }
 
 type predRow struct {
@@ -267,6 +289,7 @@ func spVal(sp string) string {
 
 // instant of row j (0/1) of a write, in seconds (all classes are whole seconds)
 func tsSeconds(ts string, j int) int64 {
+	j = j % 3000 // all rows of a request stay inside one hour
 	switch ts {
 	case "neg":
 		return -86400 + int64(j)
@@ -280,7 +303,9 @@ func tsSeconds(ts string, j int) int64 {
 	return 1_700_000_000 + int64(j)
 }
 
-func rowID(w, j int) int64 { return int64(w*10 + j + 1) }
+const idStride = 100000
+
+func rowID(w, j int) int64 { return int64(w*idStride + j + 1) }
 
 type request struct {
 	Op      string            `json:"op"`
@@ -316,17 +341,19 @@ func buildRequest(c class, w int) (request, []int64, error) {
 	hdr := map[string]string{"x-arc-database": c.DB, "Content-Type": "application/msgpack"}
 	var body []byte
 	var err error
-	ids := []int64{rowID(w, 0), rowID(w, 1)}
+	var ids []int64
+	for _, j := range allRows(c) {
+		ids = append(ids, rowID(w, j))
+	}
 	path := "/api/v1/write/msgpack"
 	switch c.Kind {
 	case "raw":
-		body, err = msgpack.Marshal(columnar(c, w, []int{0, 1}))
+		body, err = msgpack.Marshal(columnar(c, w, allRows(c)))
 	case "batch":
-		body, err = msgpack.Marshal(map[string]interface{}{"batch": []interface{}{columnar(c, w, []int{0, 1})}})
+		body, err = msgpack.Marshal(map[string]interface{}{"batch": []interface{}{columnar(c, w, allRows(c))}})
 	case "array":
 		body, err = msgpack.Marshal([]interface{}{columnar(c, w, []int{0}), columnar(c, w, []int{1})})
 	case "row":
-		ids = ids[:1]
 		id := rowID(w, 0)
 		var t int64
 		if c.Ts == "normal" {
@@ -348,7 +375,7 @@ func buildRequest(c class, w int) (request, []int64, error) {
 		path = "/api/v1/write/line-protocol?precision=us"
 		hdr["Content-Type"] = "text/plain"
 		var sb strings.Builder
-		for j := 0; j < 2; j++ {
+		for _, j := range allRows(c) {
 			id := rowID(w, j)
 			sb.WriteString("m,host=h")
 			sb.WriteString(fmt.Sprint(id))
@@ -369,6 +396,8 @@ func buildRequest(c class, w int) (request, []int64, error) {
 
 func attrOf(c class) string {
 	switch {
+	case c.Sz == "mid" || c.Sz == "big":
+		return "rows=" + c.Sz
 	case c.Mk == "int":
 		return "m=int"
 	case c.Sp != "none":
@@ -671,6 +700,7 @@ func runScenario(sc scenario, ref *refRun) (o scenarioOutcome) {
 		return
 	}
 	nextW := 0
+	replayFailed, retried := map[int]bool{}, map[int]bool{}
 	acked := map[int]bool{}
 	durableAt := map[int]int{} // write index -> schedule step at which it became durable (WAL file or Parquet)
 	var pending []int          // acknowledged by this incarnation, WAL append still held
@@ -745,12 +775,16 @@ func runScenario(sc scenario, ref *refRun) (o scenarioOutcome) {
 		case "s":
 			// plan the recovery phase from the labels that follow
 			nR := 0
+			failStep := map[int]bool{}
 			stopAt, stopN := "", 0
 			j := i + 1
 			for ; j < len(sc.Sched); j++ {
 				l := sc.Sched[j]
 				if l == "r" {
 					nR++
+				} else if l == "rf" {
+					nR++
+					failStep[nR] = true
 				} else if l == "xa" {
 					stopAt, stopN = "cb-after", nR
 					break
@@ -759,7 +793,7 @@ func runScenario(sc scenario, ref *refRun) (o scenarioOutcome) {
 					break
 				} else if l == "R" {
 					break
-				} else if l != "d" {
+				} else if l != "d" && l != "k" {
 					o.infra = "unexpected label in recovery phase: " + l
 					return
 				}
@@ -782,25 +816,36 @@ func runScenario(sc scenario, ref *refRun) (o scenarioOutcome) {
 				}
 				ev, _ := m["ev"].(string)
 				if ev == "cb-before" || ev == "cb-after" {
-					w := 0
-					if ids, ok := m["ids"].([]interface{}); ok && len(ids) > 0 {
-						if id, ok := toInt(ids[0]); ok {
-							w = id / 10
-						}
+					w, cnt := 0, 0
+					if id, ok := toInt(m["first"]); ok {
+						w = id / idStride
+					}
+					if c, ok := m["count"].(float64); ok {
+						cnt = int(c)
 					}
 					if w < 1 || w > len(sc.Writes) {
 						o.infra = fmt.Sprintf("replayed entry without a known row id: %v", m)
 						return
 					}
-					per := 1
-					if sc.Writes[w-1].Kind == "array" {
-						per = 2
+					per := rowsOf(sc.Writes[w-1]) // a step is complete when every row of the request was replayed
+					if ev == "cb-before" && inGroup[w]%per == 0 && failStep[done+1] {
+						// scripted transient failure of this entry's callback
+						if err := c.send("fail"); err != nil {
+							o.infra = err.Error()
+							return
+						}
+						done++
+						replayFailed[w] = true
+						continue
 					}
 					if ev == "cb-after" {
-						inGroup[w]++
+						inGroup[w] += cnt
 						if inGroup[w]%per == 0 {
 							done++
 							replayedThisIncarnation = done
+							if replayFailed[w] {
+								retried[w] = true
+							}
 						}
 					}
 					hit := false
@@ -899,7 +944,7 @@ func runScenario(sc scenario, ref *refRun) (o scenarioOutcome) {
 	real := map[string]bool{} // abstract outcome for the drift detector
 	for w := 1; w <= len(sc.Writes); w++ {
 		cl := sc.Writes[w-1]
-		for j := 0; j < 2; j++ {
+		for _, j := range allRows(cl) {
 			id := int(rowID(w, j))
 			exp, inRef := ref.rows[id]
 			if !inRef {
@@ -916,6 +961,9 @@ func runScenario(sc scenario, ref *refRun) (o scenarioOutcome) {
 				}
 				// where did it stop being durable?
 				mech := "not-restored-although-durable:" + walFmt(cl) + ":" + attrOf(cl)
+				if replayFailed[w] && !retried[w] {
+					mech = "wal-file-deleted-although-replay-callback-failed"
+				}
 				everInWal := false
 				for _, k := range o.kills {
 					if at, ok := durableAt[w]; !ok || k.Step < at {
@@ -927,6 +975,8 @@ func runScenario(sc scenario, ref *refRun) (o scenarioOutcome) {
 					if !k.wal[id] && !k.pq[id] {
 						if !everInWal && k.Label == "live" {
 							mech = "wal-entry-unreadable:" + walFmt(cl) + ":" + attrOf(cl)
+						} else if replayFailed[w] && !retried[w] {
+							mech = "wal-file-deleted-although-replay-callback-failed"
 						} else if k.Label == "after-recovery-before-flush" || k.Label == "recovery-after-file-delete" {
 							mech = "wal-file-deleted-before-replayed-rows-flushed"
 						} else {
@@ -935,7 +985,7 @@ func runScenario(sc scenario, ref *refRun) (o scenarioOutcome) {
 						break
 					}
 				}
-				o.violations = append(o.violations, finding{"row-missing:" + mech, wit(map[string]interface{}{"row_id": id, "expected": exp[0]})})
+				addOnce(&o, "row-missing:"+mech, wit(map[string]interface{}{"row_id": id, "expected": exp[0]}))
 				continue
 			}
 			for _, g := range rows {
@@ -944,8 +994,8 @@ func runScenario(sc scenario, ref *refRun) (o scenarioOutcome) {
 					continue
 				}
 				kinds, tm, dropped := diffKinds(exp[0], g)
-				o.violations = append(o.violations, finding{"row-changed:" + walFmt(cl) + ":" + attrOf(cl) + ":" + strings.Join(kinds, "+"),
-					wit(map[string]interface{}{"row_id": id, "expected": exp[0], "recovered": g})})
+				addOnce(&o, "row-changed:"+walFmt(cl)+":"+attrOf(cl)+":"+strings.Join(kinds, "+"),
+					wit(map[string]interface{}{"row_id": id, "expected": exp[0], "recovered": g}))
 				dbc, mc := "same", "same"
 				if exp[0].DB != g.DB {
 					dbc = g.DB
@@ -999,6 +1049,15 @@ func runScenario(sc scenario, ref *refRun) (o scenarioOutcome) {
 	o.sample = map[string]interface{}{"writes": sc.Writes, "sched": strings.Join(sc.Sched, " "), "kills": o.kills,
 		"recovered_rows": len(d.Rows), "violations": len(o.violations)}
 	return
+}
+
+func addOnce(o *scenarioOutcome, sig string, w interface{}) {
+	for _, v := range o.violations {
+		if v.Signature == sig {
+			return
+		}
+	}
+	o.violations = append(o.violations, finding{sig, w})
 }
 
 func keys(m map[string]bool) []string {
